@@ -8,7 +8,10 @@ def run(ctx):
         "hand model coq/model/Remap.v (exact N/Z arithmetic) of _create_reverse_map/_reverse_map_bits/"
         "_reverse_map_counts and of the relabelling done by QubitRemappingTranspiler, tied by vm_compute "
         "correspondence (corr_C18.py) and AST fingerprints",
-        "partial: constructor/`__call__` rejections and the qiskit/braket wrappers (wrap_C18.py: braket LocalSimulator, "
+        "executable model coq/model/RemapExec.v of QubitRemappingTranspiler (constructor check, dictionary lookups, KeyError -> "
+        "ValueError path, register size; payload of a gate carried over untouched), run by vm_compute against the real class on "
+        "mappings with / without duplicate targets, missing qubits, no entries (corr_C18.py `corr:remap_exec`)",
+        "partial: the qiskit/braket wrappers (wrap_C18.py: braket LocalSimulator, "
         "qiskit utils with a fake job; qiskit.providers.backend.BackendV1 is absent from the installed qiskit and is "
         "replaced by a placeholder class for the import) are decided by the sweep",
     ]
